@@ -32,7 +32,7 @@ class P(Prop):
             c = gen.circuit(rng, n_in=(11, 13), n_gates=(1, 2), max_arity=4, consts=0.0)
             return c, ({rng.choice(sorted(c.graph.nodes)): True} if rng.random() < 0.5 else {})
         c = gen.circuit(rng, n_in=(0 if rng.random() < 0.1 else 1, 5), n_gates=(1, 7), max_arity=4, consts=0.25,
-                        cyclic=rng.random() < 0.25, adversarial=rng.choice([0, 0, 0.3]))
+                        cyclic=rng.random() < 0.25, adversarial=rng.choice([0, 0.3, 0.3]))
         if rng.random() < 0.25 and len(c.graph.nodes) < 9:
             gen.add_flops(rng, c, n_flops=(1, 1))
         nodes = sorted(c.graph.nodes)
